@@ -1191,7 +1191,7 @@ func runC06(c *ctx) {
 	// children, 12 sweeps at a time
 	outs := make([]map[int]c06out, len(sweeps))
 	var wg sync.WaitGroup
-	sem := make(chan struct{}, 12)
+	sem := make(chan struct{}, vlib.Conc(12))
 	for i := range sweeps {
 		wg.Add(1)
 		sem <- struct{}{}
